@@ -186,9 +186,24 @@ def replay(ctx: Ctx, case: dict) -> None:
 
 
 def _d45(v: dict) -> bool:
-    """a reference with blanks inside the quotes (`" $a"`) somewhere in the document"""
+    """the two readings differ ONLY in blanks in front of an unresolved reference (`' $v'` against `'$v'`), in a document
+    that has a reference with blanks inside the quotes"""
     c = v["input"]
     if c.get("kind") != "equiv":
+        return False
+
+    def unpad(x):
+        if isinstance(x, dict):
+            return {k: unpad(y) for k, y in x.items()}
+        if isinstance(x, list):
+            return [unpad(y) for y in x]
+        if isinstance(x, str) and x.lstrip().startswith("$"):
+            return x.lstrip()
+        return x
+    try:
+        if spec.unordered(unpad(dec(v["observed"]))) != spec.unordered(unpad(dec(v["expected"]))):
+            return False
+    except Exception:  # noqa: BLE001
         return False
     import re
 
